@@ -3,8 +3,8 @@
    Vocabulary: same_part n c c' := forall i j < n, (c i = c j <-> c' i = c' j)   (same partition of 0..n-1);
    for an injective renaming g, [same_part n ci (g o ci)] holds (C14_injective_same_part), so every
    `_partition_only` theorem below gives  f W ci == f W (map g ci). *)
-From Coq Require Import QArith List Arith Bool ZArith Lia.
-From BCT Require Import Base.Mat Base.SumQ Base.ListX Model.Partition Proofs.Partition.
+From Coq Require Import QArith Qreals Reals List Arith Bool ZArith Lia.
+From BCT Require Import Base.Mat Base.SumQ Base.ListX Model.Partition Model.PartitionReal Proofs.Partition Proofs.PartitionVI.
 Import ListNotations.
 Open Scope Q_scope.
 
@@ -116,15 +116,27 @@ Theorem C14_partition_distance_exactly_when : forall n cx cy, (1 < n)%nat ->
   (snd (partition_distance log n cx cy) == 1 <-> same_part n cx cy).
 Proof. exact (partition_distance_exactly_when log log_proper log_incr log_1). Qed.
 
-(* the range clause 0 <= VIn <= 1: the lower bound is C14_VIn_nonneg; the upper bound
-   H(X|Y) + H(Y|X) <= log n needs concavity of log (Jensen on finite sums), not derivable from
-   monotonicity alone: NOT proved. Full statement kept visible; the proved half is named _partial. *)
-Definition VIn_range_full_statement : Prop :=
-  forall n cx cy, (1 < n)%nat ->
-    0 <= fst (partition_distance log n cx cy) /\ fst (partition_distance log n cx cy) <= 1.
-Theorem C14_VIn_range_partial : forall n cx cy, (1 < n)%nat -> 0 <= fst (partition_distance log n cx cy).
-Proof. exact (VIn_nonneg log log_proper log_incr log_1). Qed.
 End PartitionDistance.
+
+(* ---- the range clause 0 <= VIn <= 1, with the logarithm inside the model (Model/PartitionReal.v: rational
+   histograms as above, real entropies).  For ANY lg : Q -> R that respects ==, turns products into sums and lies
+   below x - 1 (three facts about the natural logarithm) ... *)
+Theorem C14_VIn_range_any_log : forall lg : Q -> R,
+  (forall a b, a == b -> lg a = lg b) ->
+  (forall a b, 0 < a -> 0 < b -> lg (a * b) = (lg a + lg b)%R) ->
+  (forall a, 0 < a -> (lg a <= Q2R a - 1)%R) ->
+  forall n cx cy, (1 < n)%nat -> (0 <= fst (partition_distanceR lg n cx cy) <= 1)%R.
+Proof. exact VInR_range. Qed.
+
+(* ... in particular for Coq's natural logarithm lnQ q = ln (Q2R q)  (np.log): the hypotheses are satisfiable *)
+Theorem C14_VIn_range : forall n cx cy, (1 < n)%nat -> (0 <= fst (partition_distanceR lnQ n cx cy) <= 1)%R.
+Proof. exact VIn_range_ln. Qed.
+
+(* non-vacuity, and the bound 1 is attained: one block against two singletons *)
+Example C14_VIn_range_nonvacuous :
+  let cx := of_list 0%Z [7; 7]%Z in let cy := of_list 0%Z [-3; 5]%Z in
+  pd_trivial 2 cx cy = false /\ fst (partition_distanceR lnQ 2 cx cy) = 1%R.
+Proof. exact VIn_range_tight. Qed.
 
 (* ---- ci2ls / ls2ci ---- *)
 Theorem C14_ci2ls_ls2ci_inverse : forall n ci i, (i < n)%nat -> ls2ci (ci2ls n ci) i = relabel n ci i.
@@ -165,6 +177,7 @@ Print Assumptions C14_VIn_nonneg.
 Print Assumptions C14_VIn_zero_same.
 Print Assumptions C14_MIn_one_same.
 Print Assumptions C14_partition_distance_exactly_when.
-Print Assumptions C14_VIn_range_partial.
+Print Assumptions C14_VIn_range_any_log.
+Print Assumptions C14_VIn_range.
 Print Assumptions C14_ci2ls_ls2ci_inverse.
 Print Assumptions C14_ci2ls_blocks.
